@@ -10,7 +10,7 @@ import props
 
 REPO = os.environ.get('VERIF_REPO', '/repo')
 CLANG = 'clang++-14'
-IRFLAGS = ['-O1', '-fno-vectorize', '-fno-slp-vectorize', '-fno-unroll-loops', '-fno-rtti', '-D_GLIBCXX_TSAN=1', '-DEVENTPP_VERIF',
+IRFLAGS = ['-O1', '-fgnuc-version=10.0.0', '-fno-vectorize', '-fno-slp-vectorize', '-fno-unroll-loops', '-fno-rtti', '-D_GLIBCXX_TSAN=1', '-DEVENTPP_VERIF',
            '-I' + REPO + '/include', '-S', '-emit-llvm', '-Wno-everything']
 
 
